@@ -17,7 +17,7 @@ static void scenario(long c) {
     Case k = decode(c); vtbb::init(k.P);
     std::vector<int> hits(k.n + 2, 0); std::vector<std::pair<int, int>> chunks;
     auto body = [&](const tbb::blocked_range<int>& r) { if (r.begin() >= r.end()) vf_fail("empty chunk [%d,%d) handed to the body", r.begin(), r.end()); if (r.begin() < 0 || r.end() > k.n) vf_fail("chunk [%d,%d) outside the range [0,%d)", r.begin(), r.end(), k.n);
-        chunks.push_back({r.begin(), r.end()}); for (int i = r.begin(); i < r.end(); i++) hits[i]++; vtbb::interleave(); };
+        chunks.push_back({r.begin(), r.end()}); for (int i = r.begin(); i < r.end(); i++) hits[i]++; vtbb::nested(); vtbb::interleave(); };
     tbb::blocked_range<int> range(0, k.n, k.g); int rounds = 1;
     if (k.part == 0) tbb::parallel_for(range, body, tbb::simple_partitioner());
     else if (k.part == 1) tbb::parallel_for(range, body, tbb::auto_partitioner());
